@@ -208,6 +208,41 @@ func callerExtras(r *hx.Result, ctx context.Context) {
 			}
 		}
 	}
+	// (c) a second Refresh without Destroy is rejected: the live configuration's caller properties stay in force
+	for _, live := range []bool{true, false} {
+		log.Destroy()
+		log.VerifReset()
+		sys.ResetAppenders()
+		tag := log.RegisterTag("caller_tag")
+		mk := func(enable bool) sys.Cfg {
+			cfg := sys.Cfg{}
+			cfg.AddRec("ca")
+			cfg.AddLogger("lg", "Logger", "", "caller_tag", []sys.Ref{{Ref: "ca"}}, false, nil)
+			cfg["enableCaller"] = fmt.Sprint(enable)
+			return cfg
+		}
+		if err := log.Refresh(mk(live).Map(nil)); err != nil {
+			r.SetInfra("callerExtras refresh: %v", err)
+			return
+		}
+		desc := map[string]any{"history": fmt.Sprintf("Refresh(enableCaller=%v) live, Refresh(enableCaller=%v) rejected, log", live, !live)}
+		var rerr error
+		if p := hx.Catch(func() { rerr = log.Refresh(mk(!live).Map(nil)) }); p != nil || rerr == nil {
+			log.Destroy()
+			continue // panic / acceptance of a second Refresh is another property's subject
+		}
+		wf, wl := site(ctx, tag, 1)
+		log.Destroy()
+		r.Eval(1)
+		if !live {
+			wf, wl = "", 0
+		}
+		for _, rc := range sys.Appender("ca").Recs() {
+			if rc.ID == 1 && (rc.File != wf || rc.Line != wl) {
+				r.Violate("wrong-location:after-rejected-refresh", desc, "record says %q:%d, want %q:%d (the live configuration has enableCaller=%v)", rc.File, rc.Line, wf, wl, live)
+			}
+		}
+	}
 	log.VerifReset()
 }
 
